@@ -55,7 +55,7 @@ def configs(tier, seed):
             if tier == "quick" and f == (1, 1, 1) and n % 3:
                 continue
             out.append(dict(harness="average", dtype=dts[n % 3], C=1 + (n % 5 == 0), shape=list(shp), factors=list(f),
-                            outside=("sym" if n % 2 else None), auto=(n % 4 == 1), cost=1 + shp[0] * shp[1] * shp[2] // 9))
+                            outside=("sym" if n % 2 else None), auto=(n % 4 == 1), order=("F" if n % 5 == 2 else None), cost=1 + shp[0] * shp[1] * shp[2] // 9))
     # uint64 at the type limit: every voxel is either below 2^50 or the type maximum; the float64 work type cannot hold
     # 2^64-1, so only the "no overflow / wrap, between min and max" clause is decided there
     for shp, f in (((1, 1, 2), (2, 1, 1)), ((1, 2, 1), (1, 2, 1)), ((1, 2, 2), (2, 2, 1)), ((2, 1, 3), (2, 1, 2)), ((1, 1, 1), (2, 2, 2))) \
@@ -72,9 +72,9 @@ def configs(tier, seed):
             if blk > (9 if tier == "quick" else 18):
                 continue    # blocks of 18/27 voxels: the counting query is not decided within the quick budget
             out.append(dict(harness="majority", timeout_ms=(20000 if tier == "quick" else 120000), dtype=("uint8", "uint32", "uint64", "uint16")[n % 4], C=1, shape=list(shp),
-                            factors=list(f), cost=2 + shp[0] * shp[1] * shp[2] // 4, wall=600))
+                            factors=list(f), order=("F" if n % 5 == 2 else None), cost=2 + shp[0] * shp[1] * shp[2] // 4, wall=600))
             out.append(dict(harness="stride", dtype=("uint8", "uint32", "uint64", "float32")[n % 4], C=1 + n % 2,
-                            shape=list(shp), factors=list(f), cost=1))
+                            shape=list(shp), factors=list(f), order=("F" if n % 5 == 3 else None), cost=1))
     for e in (-3, 0, 10):
         for f, shp in (((2, 2, 2), (2, 2, 2)), ((2, 1, 2), (1, 1, 1)), ((2, 2, 1), (1, 2, 1))):
             out.append(dict(harness="average_f32", e=e, shape=list(shp), factors=list(f), cost=3))
@@ -93,9 +93,11 @@ def _mods(exact=True):
     return load.patch("downscaling", np=npx)
 
 
-def _in_voxels(ctx, C, shape_zyx, dtype, exact):
+def _in_voxels(ctx, C, shape_zyx, dtype, exact, order=None):
     arr = SArray.fresh((C,) + tuple(shape_zyx), dtype, "v", exact_int=exact)
     ctx.input("chunk", [x.__zexpr__() for x in arr.a.ravel()])
+    if order == "F":          # same values, Fortran memory order (the result must not depend on the layout)
+        arr = SArray(real_np.asfortranarray(arr.a), arr.dtype)
     return arr
 
 
@@ -107,7 +109,7 @@ def _block_indices(n, f):
 def H_average(ctx, cfg):
     ds = _mods()
     C, (Z, Y, X), (fx, fy, fz), dtype = cfg["C"], cfg["shape"], cfg["factors"], cfg["dtype"]
-    chunk = _in_voxels(ctx, C, (Z, Y, X), dtype, True)
+    chunk = _in_voxels(ctx, C, (Z, Y, X), dtype, True, cfg.get("order"))
     info = real_np.iinfo(dtype)
     if cfg.get("lim"):
         for x in chunk.a.ravel():
@@ -215,7 +217,7 @@ def H_majority(ctx, cfg):
     exact = cfg.get("exact", True)
     ds = _mods(exact=exact)
     C, (Z, Y, X), (fx, fy, fz), dtype = cfg["C"], cfg["shape"], cfg["factors"], cfg["dtype"]
-    chunk = _in_voxels(ctx, C, (Z, Y, X), dtype, exact)
+    chunk = _in_voxels(ctx, C, (Z, Y, X), dtype, exact, cfg.get("order"))
     d = ds.get_downscaler("majority", None, {})
     res = d.downscale(chunk, (fx, fy, fz))
     want_shape = (C, -(-Z // fz), -(-Y // fy), -(-X // fx))
@@ -246,7 +248,7 @@ def H_majority(ctx, cfg):
 def H_stride(ctx, cfg):
     ds = _mods(exact=False)
     C, (Z, Y, X), (fx, fy, fz), dtype = cfg["C"], cfg["shape"], cfg["factors"], cfg["dtype"]
-    chunk = _in_voxels(ctx, C, (Z, Y, X), dtype, False)
+    chunk = _in_voxels(ctx, C, (Z, Y, X), dtype, False, cfg.get("order"))
     d = ds.get_downscaler("stride", None, {})
     res = d.downscale(chunk, (fx, fy, fz))
     want_shape = (C, -(-Z // fz), -(-Y // fy), -(-X // fx))
@@ -384,7 +386,7 @@ def replay(cfg, cex):
         opts["outside_value"] = float(inp["outside"])
     d = ds.get_downscaler("auto", {"type": "image"}, opts) if (h == "average" and cfg.get("auto")) else ds.get_downscaler(h, None, opts)
     try:
-        res = d.downscale(chunk.copy(), (fx, fy, fz))
+        res = d.downscale(real_np.asfortranarray(chunk) if cfg.get("order") == "F" else chunk.copy(), (fx, fy, fz))
     except Exception as e:
         return True, f"{h} downscaler raised {type(e).__name__}: {e}"
     want_shape = (C, -(-Z // fz), -(-Y // fy), -(-X // fx))
